@@ -177,7 +177,7 @@ fn part_frames(ctx: &Ctx, sel: &ChildSel, glob: &Mutex<Stats>, only_small: bool)
 }
 
 // ------------------------------------------------------------------ part: tamper
-const TAMPER_OPS: usize = 30;
+const TAMPER_OPS: usize = 36;
 fn tamper_op<T: Pixel>(f: &mut Frame<T>, pl: usize, op: usize, rng: &mut Rng) -> String {
     let small: Plane<T> = Plane::new(1, 1, 0, 0, 0, 0);
     let p = &mut f.planes[pl];
@@ -316,6 +316,32 @@ fn tamper_op<T: Pixel>(f: &mut Frame<T>, pl: usize, op: usize, rng: &mut Rng) ->
             p.cfg.xpad += 1000;
             p.cfg.ypad += 1000;
             "pad fields += 1000".into()
+        }
+        29 => {
+            p.cfg.height += 1;
+            "height+=1".into()
+        }
+        30 => {
+            p.cfg.width += 1;
+            "width+=1".into()
+        }
+        31 => {
+            p.cfg.yorigin += 1;
+            "yorigin+=1".into()
+        }
+        32 => {
+            p.cfg.xorigin += 1;
+            "xorigin+=1".into()
+        }
+        33 => {
+            // the plane ends exactly at the end of its buffer, then grows by one row / one column
+            p.cfg.height = p.cfg.alloc_height.saturating_sub(p.cfg.yorigin) + 1;
+            "height=rows-left+1".into()
+        }
+        34 => {
+            p.cfg.width = p.cfg.stride.saturating_sub(p.cfg.xorigin);
+            p.cfg.height = p.cfg.alloc_height.saturating_sub(p.cfg.yorigin);
+            "fill-to-buffer-end".into()
         }
         _ => "none".into(),
     }
@@ -712,7 +738,7 @@ pub fn c07(ctx: &Ctx) {
     ev::exhaustive(false);
     ev::rule(
         "C07 workloads: (frames) the Plane::new frame family of C12 with every accepted frame decoded (and 1 in 8 also through LinearRgb/Xyb and re-encoded); (tamper) valid frames whose public cfg/data fields were edited \
-         by one of 29 operations, singly on every plane and in random combinations, plus width*height products that wrap usize; (walks) seeded random walks of <=6 conversions over {Yuv<u8>,Yuv<u16>,Rgb,LinearRgb,Xyb,Hsl} \
+         by one of 35 operations, singly on every plane and in random combinations, plus width*height products that wrap usize; (walks) seeded random walks of <=6 conversions over {Yuv<u8>,Yuv<u16>,Rgb,LinearRgb,Xyb,Hsl} \
          with sizes 1..=12 (incl. not divisible by the target subsampling) and hostile floats; (floats) every curve direction, XYB, HSL and the full chain on special values and random bit patterns. \
          non-trivial = accepted frames (converted) + distinct walk edge sequences + tamper/float cases; the observers are the hooks at the unsafe sites (Trap in-process, Record in children), std ub_checks, Miri, ASan, memcheck",
     );
@@ -889,7 +915,9 @@ fn c13_case(ctx: &Ctx, ci: u64, cfgt: (TC, CP, MC, bool, u8), st: &mut Stats) ->
     let layouts = [(0u8, 0u8), (1, 0), (1, 1), (0, 1), (2, 0), (2, 2)];
     let ss = layouts[(ci % 6) as usize];
     let cfg = cfg_full(m, t, p, full, n, ss);
-    let (w, h) = (8usize, if ctx.flag("lite") { 4 } else { ctx.pick(24, 128) });
+    // sizes vary from config to config (a thread sees growing and shrinking images), always divisible by 4
+    let hh = if ctx.flag("lite") { 4 } else { ctx.pick(24, 128) };
+    let (w, h) = ([8usize, 4, 16, 12][(ci % 4) as usize], [hh, 4, hh / 2, 8][((ci / 4) % 4) as usize].max(4) & !3);
     let px = hostile_image(&mut rng, w * h, st);
     let cj = J::obj().set("kind", "c13").set("config_index", ci).set("cfg", cfg_json(&cfg)).set("seed", ctx.seed).set("tier", if ctx.tier == Tier::Quick { "quick" } else { "thorough" }).set("lite", ctx.flag("lite"));
     let mut conv = 0u64;
@@ -943,7 +971,13 @@ fn c13_case(ctx: &Ctx, ci: u64, cfgt: (TC, CP, MC, bool, u8), st: &mut Stats) ->
             0 => [rng.unit_bits(), rng.unit_bits(), rng.unit_bits()],
             1 => {
                 let v = [0.0f32, 1.0, f32::MIN_POSITIVE, 1e-45, 0.5, 0.99999994];
-                [rng.pick(&v), rng.pick(&v), rng.pick(&v)]
+                if i % 8 == 1 {
+                    // exact cube corners (pure primaries saturate the chroma range) and exact greys of tiny magnitude
+                    let c = i / 8;
+                    if c % 2 == 0 { [(c & 2) as f32 / 2.0, (c & 4) as f32 / 4.0, (c & 8) as f32 / 8.0] } else { [rng.pick(&v); 3] }
+                } else {
+                    [rng.pick(&v), rng.pick(&v), rng.pick(&v)]
+                }
             }
             _ => [rng.unit() as f32, rng.unit() as f32, rng.unit() as f32],
         })
